@@ -33,16 +33,17 @@ type cgraph struct {
 
 var cgCache = map[*core.Program]map[bool]*cgraph{}
 
-// CallGraph returns the CHA call graph (quick) or the VTA-refined one (thorough).
+// CallGraph returns the VTA call graph seeded with CHA.
 func (c *Ctx) CallGraph(p *core.Program) *cgraph {
 	th := c.Thorough()
 	if m := cgCache[p]; m != nil && m[th] != nil {
 		return m[th]
 	}
-	g := cha.CallGraph(p.SSA)
-	if th {
-		g = vta.CallGraph(p.AllFns, g)
-	}
+	// CHA resolves a call through a function value to every address-taken function of that
+	// signature in the program (a `func(int) int` parameter "may call" rand.Intn); VTA follows the
+	// values that can actually reach the call and costs under half a second, so both tiers use it
+	g := vta.CallGraph(p.AllFns, cha.CallGraph(p.SSA))
+	_ = th
 	if cgCache[p] == nil {
 		cgCache[p] = map[bool]*cgraph{}
 	}
